@@ -1838,3 +1838,14 @@ _old_abs = np_abs
 @model(np.abs, np.absolute, builtins.abs)
 def np_abs2(interp, x):
     return abs(x)
+
+
+@model(np.max, np.amax)
+def np_max_obj(interp, a, axis=None, **k):
+    if isinstance(a, ObjArr):
+        neg = a._map(lambda x, y: -x)
+        r = np_min_obj(interp, neg, axis)
+        return r._map(lambda x, y: -x) if isinstance(r, ObjArr) else -r
+    if deep_sym(a):
+        raise OutsideSubset("np.max of a symbolic array")
+    return np.max(a, axis=axis, **k)
